@@ -29,6 +29,9 @@
 //	C <id> ioblock attempts=<k> Stop racing a read hand-over to the default IO task pool, forced schedule (see runIOBlock)
 //	  O run                       R ret=<nil|hang> attempts=<k>  |  R skipped (state never reached)
 //
+//	C <id> fdlimit limit=<n>    conns whose descriptor does not fit the engine's table (fd >= MaxOpenFiles), see runFdLimit
+//	  O run dials=<d> accepts=<a> stop|shutdown      R ret=<nil|err|hang> dialerrs=<d> panics=<n> opens=<n> closes=<n>
+//
 // Direct oracles (implementation only):
 //
 //	c18-hang         Stop/Shutdown did not return (sim: with all gates open and the engine settled; real: within the
@@ -119,6 +122,13 @@ func genHsimReq(g *lp.Gen, id int) {
 	g.P("O wait")
 }
 
+// genFdLimit: connections whose descriptor number does not fit the engine's table (fd >= MaxOpenFiles): refused at the
+// door by addConn / addDialer, then Stop.
+func genFdLimit(g *lp.Gen, id int) {
+	g.P("C %d fdlimit limit=%d", id, g.PickInt(16, 32, 64))
+	g.P("O run dials=%d accepts=%d %s", g.PickInt(1, 2, 4), g.PickInt(0, 1, 3), g.Pick("stop", "shutdown"))
+}
+
 // genIOBlock: Stop racing a read hand-over to the engine's default IO task pool (ET + AsyncReadInPoller), forced schedule.
 func genIOBlock(g *lp.Gen, id int) {
 	g.P("C %d ioblock attempts=%d", id, 2)
@@ -173,6 +183,10 @@ func gen(g *lp.Gen) {
 	for i := 0; i < g.N; i++ {
 		if i%30 == 11 {
 			genIOBlock(g, i)
+			continue
+		}
+		if i%30 == 21 {
+			genFdLimit(g, i)
 			continue
 		}
 		if i%10 == 7 {
@@ -1663,6 +1677,165 @@ func runIOBlock(e *lp.Exec, head string, ops []string) {
 	}
 }
 
+// runFdLimit: an engine whose connection table is small (nbio.MaxOpenFiles = limit at Start) while every new socket
+// of the process gets a descriptor number >= limit (the harness pads the low numbers): dialed and accepted conns do
+// not fit the table and are refused at the door by addDialer / addConn ("too many open files"): no open and no close
+// notification, DialAsync returns the error, the descriptor is closed, no wgConn count is kept — and Stop returns.
+//
+//	C <id> fdlimit limit=<n>     O run dials=<d> accepts=<a> stop|shutdown
+//	R ret=<nil|err|hang> dialerrs=<d> panics=<n> opens=<n> closes=<n>
+func runFdLimit(e *lp.Exec, head string, ops []string) {
+	ws := strings.Fields(head)
+	limit := atoi(field(ws, "limit"))
+	vsys.VirtualAll = false
+	e.P("> %s", head)
+	e.P("ok")
+	for _, ln := range ops {
+		ow := strings.Fields(ln)
+		if ow[0] != "O" || ow[1] != "run" {
+			e.P("> %s", ln)
+			e.P("R -")
+			continue
+		}
+		dials, accepts, graceful := atoi(field(ow, "dials")), atoi(field(ow, "accepts")), ow[len(ow)-1] == "shutdown"
+		runtime.GC()
+		time.Sleep(10 * time.Millisecond)
+		g0 := runtime.NumGoroutine()
+		fd0, fdn0 := countFDs()
+		// pad the low descriptor numbers
+		var pad []int
+		for {
+			fd, err := syscall.Open("/dev/null", syscall.O_RDONLY, 0)
+			if err != nil {
+				panic(err)
+			}
+			pad = append(pad, fd)
+			if fd >= limit+64 {
+				break
+			}
+		}
+		// the numbers just below the top of the padding are given back: the engine's own descriptors (epoll, eventfd,
+		// listener) and the sockets of the case land there, all >= limit
+		for len(pad) > 0 && pad[len(pad)-1] >= limit {
+			_ = syscall.Close(pad[len(pad)-1])
+			pad = pad[:len(pad)-1]
+		}
+		var opens, closes, panics, dialErrs int32
+		nbio.MaxOpenFiles = limit
+		g := nbio.NewEngine(nbio.Config{Network: "tcp", Addrs: []string{"127.0.0.1:0"}, NPoller: 1})
+		g.OnOpen(func(c *nbio.Conn) { atomic.AddInt32(&opens, 1) })
+		g.OnClose(func(c *nbio.Conn, err error) { atomic.AddInt32(&closes, 1) })
+		g.OnData(func(c *nbio.Conn, data []byte) {})
+		err := g.Start()
+		nbio.MaxOpenFiles = 19999
+		if err != nil {
+			panic(err)
+		}
+		sink, err := net.Listen("tcp", "127.0.0.1:0")
+		if err != nil {
+			panic(err)
+		}
+		var sinkCs []net.Conn
+		var smu sync.Mutex
+		go func() {
+			for {
+				c, err := sink.Accept()
+				if err != nil {
+					return
+				}
+				smu.Lock()
+				sinkCs = append(sinkCs, c)
+				smu.Unlock()
+			}
+		}()
+		panicText := ""
+		for i := 0; i < dials; i++ {
+			func() {
+				defer func() {
+					if r := recover(); r != nil {
+						atomic.AddInt32(&panics, 1)
+						panicText = fmt.Sprint(r)
+					}
+				}()
+				if err := g.DialAsync("tcp", sink.Addr().String(), func(c *nbio.Conn, err error) {}); err != nil {
+					atomic.AddInt32(&dialErrs, 1)
+				}
+			}()
+		}
+		var clients []net.Conn
+		for i := 0; i < accepts; i++ {
+			if c, err := net.DialTimeout("tcp", g.Addrs[0], 2*time.Second); err == nil {
+				clients = append(clients, c)
+			}
+		}
+		notClosed := 0
+		for _, c := range clients {
+			_ = c.SetReadDeadline(time.Now().Add(2 * time.Second))
+			if _, err := c.Read(make([]byte, 1)); err != nil {
+				if ne, ok := err.(net.Error); ok && ne.Timeout() {
+					notClosed++
+				}
+			}
+		}
+		if notClosed > 0 {
+			e.Oracle("c18-close-count", "fdlimit: %d of %d accepted connections whose descriptor does not fit the engine's table (fd >= MaxOpenFiles = %d) were not closed", notClosed, len(clients), limit)
+		}
+		if n := atomic.LoadInt32(&panics); n > 0 {
+			e.Oracle("c18-fds", "fdlimit: DialAsync panicked %d time(s) (%s) on a descriptor that does not fit the engine's table (fd >= MaxOpenFiles = %d): the refusal path did not close the descriptor / give back its wgConn count", n, panicText, limit)
+		}
+		ret := "nil"
+		done := make(chan error, 1)
+		go func() {
+			if graceful {
+				ctx, cancel := context.WithTimeout(context.Background(), 8*time.Second)
+				defer cancel()
+				done <- g.Shutdown(ctx)
+			} else {
+				g.Stop()
+				done <- nil
+			}
+		}()
+		select {
+		case err := <-done:
+			if err != nil {
+				ret = "err"
+				e.Oracle("c18-hang", "class=unexplained fdlimit: Shutdown with a live context returned %v after %d dials / %d accepts beyond the table limit (opens=%d closes=%d)", err, dials, accepts, atomic.LoadInt32(&opens), atomic.LoadInt32(&closes))
+			}
+		case <-time.After(10 * time.Second):
+			ret = "hang"
+			e.Oracle("c18-hang", "class=unexplained fdlimit: Stop did not return within 10s after %d dials / %d accepts beyond the table limit (fd >= MaxOpenFiles = %d; dial errors %d, panics %d, opens=%d closes=%d)", dials, accepts, limit, atomic.LoadInt32(&dialErrs), atomic.LoadInt32(&panics), atomic.LoadInt32(&opens), atomic.LoadInt32(&closes))
+		}
+		_ = sink.Close()
+		smu.Lock()
+		for _, c := range sinkCs {
+			_ = c.Close()
+		}
+		smu.Unlock()
+		for _, c := range clients {
+			_ = c.Close()
+		}
+		for _, fd := range pad {
+			_ = syscall.Close(fd)
+		}
+		if ret == "nil" {
+			if ok := waitFor(func() bool { runtime.Gosched(); return runtime.NumGoroutine() <= g0 }, 3*time.Second); !ok {
+				buf := make([]byte, 1<<16)
+				buf = buf[:runtime.Stack(buf, true)]
+				e.Oracle("c18-goroutines", "fdlimit: before start %d, after stop %d; %s", g0, runtime.NumGoroutine(), summarizeStacks(string(buf)))
+			}
+			runtime.GC()
+			if okf := waitFor(func() bool { n, _ := countFDs(); return n <= fd0 }, 2*time.Second); !okf {
+				n, names := countFDs()
+				e.Oracle("c18-fds", "fdlimit: before start %d, after stop %d; new: %s", fd0, n, strings.Join(diffNames(fdn0, names), ","))
+			}
+		}
+		e.P("> %s", ln)
+		e.P("R ret=%s dialerrs=%d panics=%d opens=%d closes=%d", ret, atomic.LoadInt32(&dialErrs), atomic.LoadInt32(&panics), atomic.LoadInt32(&opens), atomic.LoadInt32(&closes))
+		e.Key(fmt.Sprintf("fdlimit|%d|%d|%d|%v|%s", limit, dials, accepts, graceful, ret), true)
+		e.Count("fdlimit", "cases")
+	}
+}
+
 func diffNames(a, b []string) []string {
 	m := map[string]int{}
 	for _, x := range a {
@@ -1728,6 +1901,8 @@ func exec(e *lp.Exec) {
 		}
 		if strings.Contains(head, " sim") {
 			runSim(e, head, ops)
+		} else if strings.Contains(head, " fdlimit") {
+			runFdLimit(e, head, ops)
 		} else if strings.Contains(head, " ioblock") {
 			runIOBlock(e, head, ops)
 		} else if strings.Contains(head, " hsim") {
